@@ -206,6 +206,20 @@ func exhaustiveLoopsRule(min int, roots ...string) Rule {
 					c.ok(id, n, what, l.pos, "reviewed early exit: "+reason)
 					continue
 				}
+				// the same search in an unexported helper that serves only reviewed search functions over that type
+				{
+					var served []string
+					for name, byType := range a2SearchLoops {
+						if _, ok := byType[l.overType]; ok {
+							served = append(served, name)
+						}
+					}
+					sort.Strings(served)
+					if len(served) > 0 && f.Object() != nil && !f.Object().Exported() && f.Parent() == nil && c.isOrServesOnly(f, served...) {
+						c.ok(id, n, what, l.pos, "reviewed early exit, in a helper that serves only "+strings.Join(served, ", "))
+						continue
+					}
+				}
 				// predicates and searches: a function that returns values but no error cannot "fail"; leaving the loop
 				// with the answer is what it is for (contains, first match, all-of / any-of tests)
 				if rs := resultTypes(f); len(rs) > 0 && errIndex(f) < 0 {
